@@ -308,8 +308,9 @@ func rsIdentity(r *sim.Record) []V {
 		}
 		h := oracle.TemplateHash(&pre.Spec.Template)
 		for _, rs := range ownRS(r.Pre, pre) {
-			if rs.Annotations[oracle.AnnTemplateHash] == h && rs.DeletionTimestamp == nil {
-				out = append(out, V{"C13", "rs-identity", "C13/rs-identity/second-replica-set-for-template", fmt.Sprintf("replica set %s created although %s already exists for the same template (hash %s)", obj.Name, rs.Name, h)})
+			// a replica set that is being deleted but still exists (finalizer) counts: "while one exists"
+			if rs.Annotations[oracle.AnnTemplateHash] == h {
+				out = append(out, V{"C13", "rs-identity", "C13/rs-identity/second-replica-set-for-template", fmt.Sprintf("replica set %s created although %s already exists for the same template (hash %s, deletionTimestamp set: %v)", obj.Name, rs.Name, h, rs.DeletionTimestamp != nil)})
 			}
 		}
 		if !apiequality.Semantic.DeepEqual(obj.Spec.Template, pre.Spec.Template) {
